@@ -11,9 +11,13 @@ SPEC = Spec(
                 files={"zz_verif_c12_env_test.go": "c12/env_test.go"},
                 test="TestVerifC12Env", driver="drv_c12", n={"quick": 4000, "thorough": 60000}, timeout_s=900),
     ],
-    rule="cases 0-17 are the corpus (both escaping defects of the pinned tree, cycles incl. an embedded one-element cycle, $ in a name, "
+    rule="cases 0-47 are the corpus (0-17: both escaping defects of the pinned tree, cycles incl. an embedded one-element cycle, $ in a name, "
          "typed whole value, nested reference, provider value with references/escapes, 999 vs 1000 references, a 5-source merge, "
-         "indirect references in non-last list positions / map values / nested, a 3-deep structured chain). Then by case index mod 5: "
+         "indirect references in non-last list positions / map values / nested, a 3-deep structured chain; 18-21: repeated source "
+         "locations; 22-25: embedded cycles of length 1-3; 26-28: locations that embed their YAML content; 29-35: typed whole-value "
+         "references incl. YAML null (panic / expandedValue-leak witnesses); 36-40: later source overrides a key whose earlier value is a "
+         "reference; 41-47: $ at the first / last position of a reference name). Then seven streams by case index mod 7 "
+         "(tok, rand, merge, mixed, chain, typed, override): "
          "chain = providers env:L0->..->Lk (k<=3, each link mentions the next once or twice, whole/embedded/inside map or list YAML; "
          "last link plain or 1 in 30 self-referential) referenced from list elements (deepest chain never last), map values, nested; "
          "tok = 1-3 values rendered from random token lists (0-12 tokens: literals incl. '{' ':' , '}', runs of $$, lone $, "
@@ -24,7 +28,7 @@ SPEC = Spec(
          "3 schemes x 9 names, values through NewRetrievedFromYAML (27 plain, 23 with $/references/cycles) or NewRetrieved "
          "(maps, lists, scalars, nil); default scheme on/off. Observed: the resolved Conf with expandedValue leaves, ToStringMap, "
          "and Conf.Unmarshal of every top-level key into string / named string / *string / struct{V string} / []string / map[string]string / "
-         "float64 / TextUnmarshaler struct / any / int / bool fields. typed stream (1/6): whole-value references to provider texts of every "
+         "float64 / TextUnmarshaler struct / any / int / bool fields. typed stream (1/7): whole-value references to provider texts of every "
          "YAML kind (one third YAML null: null ~ Null NULL), also inside a []string and a map[string]string and under a nested key. env "
          "harness (external package e2etest): the real envprovider behind a recording wrapper, ${env:NAME}, ${NAME}, ${env:NAME:-default}, "
          "unset and invalid names, ToStringMap + string/any decoding. override stream (1/7): a later source replaces keys whose earlier value is a "
